@@ -8,7 +8,7 @@ CLAIMS = {
  "C01": dict(
   level="model_checking", design="§3.4, §5 C01",
   text="TLA+ reference semantics of views (spec/view/View.tla, written from the language and C++ references, incl. the constant-folding rule of static ranges and the $min/$max size constants) evaluated by TLC on every buffer the real generated C++ view was run on: all byte strings over a per-program alphabet up to MaxSizeInBytes+2 for every struct/parameter sample of the feature catalogue and of TLC-generated programs (ProgGen.tla); TLC decides equality of the whole observation vector and PrefixMonotone between each buffer and its prefix. Exhaustive within the stated alphabet/length bounds; beyond them nothing is claimed.",
-  note="Trusts TLC, g++, the abstract-program renderer (its output is what the real compiler parses; replay files carry the rendered .emb). Field widths <= 24 bits so values fit TLC integers; wide scalars are C02. Named modelling decisions: DESIGN.md §7.3.",
+  note="Part `wide`: values of BoundsGen wide-family expressions (UInt/Int:31..64, landmark constants) read through the generated C++ and judged by WideEval.tla (BigInt). Trusts TLC, g++, the abstract-program renderer (its output is what the real compiler parses; replay files carry the rendered .emb). Field widths <= 24 bits so values fit TLC integers; wide scalars are C02. Named modelling decisions: DESIGN.md §7.3.",
   technique="TLA+ reference semantics + TLC trace validation of recorded C++ view observations"),
  "C02": dict(
   level="model_checking", design="§3.4 Scalar, §5 C02",
@@ -18,12 +18,12 @@ CLAIMS = {
  "C03": dict(
   level="model_checking", design="§3.4, §5 C03",
   text="Write actions of View.tla (CouldWrite, TryToWrite, frame condition, inverse of +/- virtuals). TLC -simulate generates write behaviours (ViewGen.tla), the real generated code replays them, TLC validates every verdict, every complete post-buffer and the observation vector after each write (ViewTrace.tla). Run-time level: CouldWriteValue / write-read-back / neighbour-bit preservation for all widths and symbolic 64-bit boundary values (Scalar.tla).",
-  note="Sampled behaviours (seeded), not exhaustive; values at range and [requires] edges; widths <= 24 bits at generated-code level.",
+  note="Mode `trunc`: writes on every truncation of Ok buffers. Sampled behaviours (seeded), not exhaustive; values at range and [requires] edges; widths <= 24 bits at generated-code level.",
   technique="TLC-generated behaviours replayed into generated C++ + TLC trace validation"),
  "C04": dict(
   level="exploration", design="§5 C04, §8",
   text="TLC cannot observe an out-of-bounds access or UB: the specification supplies which calls the checked API permits in which state, the buffers (every byte string over the program alphabet up to MaxSize+2: empty, truncated, oversized, 0xff-filled) and TLC-generated behaviours (writes at range edges, overlapping copies, Equals, text round trips); the decisive observation is made by clang ASan+UBSan on exact-size heap buffers: a sanitizer report, an assert/EMBOSS_CHECK abort or a signal ends the trace and is a violation. The traces recorded from the sanitizer build are also validated by TLC against View.tla.",
-  note="clang-14 sanitizer semantics; accesses inside the allocation but outside a sub-view are invisible; exploration level, not model checking.",
+  note="Parts: enum (enumerated buffers), single / pair / trunc behaviours, wide (64-bit arithmetic of the BoundsGen wide family under UBSan); every TryToCopyFrom also on exact-size allocations of their own. clang-14 sanitizer semantics; accesses inside the allocation but outside a sub-view are invisible; exploration level, not model checking.",
   technique="TLA+-generated buffers/behaviours replayed under ASan+UBSan (sanitizers as trace instrumentation)"),
  "C05": dict(
   level="model_checking", design="§3.3 Bounds, §5 C05",
@@ -33,12 +33,12 @@ CLAIMS = {
  "C06": dict(
   level="model_checking", design="§3.4 Text, §5 C06",
   text="Text.tla: integer codec (EncodeInt/DecodeInt, malformed catalogue) model-checked on a small domain and bound to the real WriteIntegerToTextStream/DecodeInteger for all eight C++ integer types x bases x grouping (TextCheck.tla). Structure level: TLC-generated behaviours with text events on the catalogue programs; the real WriteToString output is parsed into a tree and TLC (ViewTrace!CheckText) decides names, presence, Skip/Emit, order after dependencies, values = field values, then UpdateFromText into a zeroed buffer succeeds and every emitted field reads back equal.",
-  note="Float text rendering excluded (bit-pattern round trip only); single-line output with comments is outside the documented re-readable set.",
+  note="Behaviours start from Ok buffers found with the real view (find_ok_buffers) so that text events are not skipped; members of anonymous bits carry their own text attribute (ViewTrace!TextAttrIn). Float text rendering excluded (bit-pattern round trip only); single-line output with comments is outside the documented re-readable set.",
   technique="TLA+ text-format spec + TLC validation of recorded encoder/decoder and round-trip traces"),
  "C07": dict(
   level="exploration", design="§5 C07, §8",
   text="Validity of C++ is decided by g++: the specification supplies the quantifier - accepted modules generated by TLC (ProgGen.tla programs over every feature of the view catalogue, the identifier-shape catalogue NameGen.tla) plus the repository corpus; for each, the header emitted with and without enum traits is compiled under -std=c++11/14/17 together with a full-instantiation driver (explicit instantiation of every generated view class, every enum helper, text methods) and static_asserts of every compile-time constant against the value in the front end's IR.",
-  note="exploration level: the verdict comes from the C++ compiler; g++ only (clang covered by C04's build).",
+  note="Families: names (NameGen.tla), consts (ConstGen.tla landmarks as constants, enum values and `tag == landmark` conditionals; the module must be accepted), progs (catalogue incl. Nested/Fwd + ProgGen), corpus. exploration level: the verdict comes from the C++ compiler; g++ only (clang covered by C04's build).",
   technique="TLA+-generated accepted modules compiled and fully instantiated with g++ under three standards"),
  "C08": dict(
   level="model_checking", design="§3.2, §5 C08",
@@ -83,7 +83,7 @@ CLAIMS = {
  "C16": dict(
   level="model_checking", design="§3.5, §5 C16",
   text="Pipeline.tla is a monitor of the compiler process (import loop, parse cache, twelve passes with early exit and deferred synthetic errors, back end, report); PipelineMC model-checks the design and that defective variants are caught; TLC-enumerated pass-outcome scenarios are replayed into the real glue.process_ir; one event per spec action is recorded from the real front/back end and embossc for inputs none of which is chosen to be valid (bytes, token soup, grammar-shaped programs, mutations/truncations of the corpus, import sets) and TLC (PipelineTrace) evaluates Total, PassOrder, EarlyExit, deferred errors, ErrorsWellFormed and rendering at every step.",
-  note="Inputs bounded as in the property; a compilation must finish within 45 s / 3 GiB.",
+  note="Input families: bytes, soup, gram, valid, nest, imports, xmod (diagnostics crossing a module boundary), semsoup (type-directed semantic soup), mut, trunc, sent, cli. Inputs bounded as in the property; a compilation must finish within 45 s / 3 GiB.",
   technique="TLA+ pipeline monitor + TLC trace validation of recorded compilations"),
  "C17": dict(
   level="model_checking", design="§3.5, §5 C17",
